@@ -6,7 +6,12 @@ use std::sync::atomic::{AtomicBool, AtomicU64, Ordering};
 use std::sync::Mutex;
 use std::time::Instant;
 
-pub const VERIF_DIR: &str = "/verif";
+pub const VERIF_DIR_DEFAULT: &str = "/verif";
+
+/// Where evidence / replays / known_findings.json live (VERIF_OUT overrides, for runs from a snapshot).
+pub fn verif_dir() -> String {
+    std::env::var("VERIF_OUT").unwrap_or_else(|_| VERIF_DIR_DEFAULT.to_string())
+}
 
 #[derive(Clone, Debug)]
 pub struct Violation {
@@ -138,7 +143,7 @@ impl Report {
             groups.entry(v.signature.clone()).or_default().push(v);
         }
         // replay files of earlier runs of this property are stale now
-        let _ = std::fs::remove_dir_all(format!("{VERIF_DIR}/replays/{}", self.id));
+        let _ = std::fs::remove_dir_all(format!("{}/replays/{}", verif_dir(), self.id));
         let mut new_count = 0u64;
         let mut known_count = 0u64;
         let mut lines = 0;
@@ -152,7 +157,7 @@ impl Report {
                 new_count += vs.len() as u64;
                 // one replay file per signature (the smallest / first case), up to 20 lines
                 if lines < 20 {
-                    let dir = format!("{VERIF_DIR}/replays/{}", self.id);
+                    let dir = format!("{}/replays/{}", verif_dir(), self.id);
                     let _ = std::fs::create_dir_all(&dir);
                     let mut replay = vs[0].replay.clone();
                     if let J::Object(m) = &mut replay {
@@ -205,7 +210,7 @@ impl Report {
             "wall_s": self.start.elapsed().as_secs_f64(),
             "violations": new_count,
         });
-        let dir = format!("{VERIF_DIR}/evidence");
+        let dir = format!("{}/evidence", verif_dir());
         let _ = std::fs::create_dir_all(&dir);
         let path = format!("{dir}/{}.json", self.id);
         if let Err(e) = std::fs::write(&path, serde_json::to_string_pretty(&ev).unwrap()) {
@@ -270,7 +275,7 @@ fn sig_matches(pattern: &str, sig: &str) -> bool {
 }
 
 pub fn load_known() -> Vec<Known> {
-    let path = format!("{VERIF_DIR}/known_findings.json");
+    let path = format!("{}/known_findings.json", verif_dir());
     let Ok(text) = std::fs::read_to_string(&path) else { return vec![] };
     let Ok(j) = serde_json::from_str::<J>(&text) else {
         eprintln!("known_findings.json is not valid JSON; ignoring");
